@@ -1,6 +1,7 @@
 import FxVerif.Model.C16
 import FxVerif.Proofs.C16Sem
 import FxVerif.Proofs.C16Store
+import FxVerif.Model.C16Tx
 /-!
 # C16 — privileged messages take effect only when issued by the governance authority
 
@@ -366,6 +367,145 @@ theorem no_route_rejected {σ : Type} (P : Program) (env : Env) (auth : Str) (W 
       | rejectIf _ => simp [needsRouteBody] at hn
       | work _ _ => simp [needsRouteBody] at hn
 
+/-! ### who has to have signed: transactions, `MsgExec`, proposals -/
+
+/-- through the router, an authority that does not decode to the account the keeper's authority decodes to is rejected
+with the state untouched (contrapositive of `routed_accepts_only_governance_account_all`) -/
+theorem routed_rejects_other_accounts {σ : Type} (r : Registration) (hr : r ∈ C16Sem.registrations)
+    (sv : Service) (hsv : sv ∈ C16Sem.services) (hpkg : sv.pkg = r.service)
+    (mm : String × String) (hmm : mm ∈ sv.methods) (hmsg : mm.2 ≠ "")
+    (env : Env) (hgov : lowerAsciiStr env.gov = true) (auth : Str) (W : World σ) (payloadOk : Bool) (s : σ)
+    (h : accAddress env.cfg auth ≠ accAddress env.cfg env.gov) :
+    routed prog C16Sem.msgInfos env auth W payloadOk r.impl mm.1 mm.2 s = (.err, s) :=
+  Classical.byContradiction fun hc =>
+    h (routed_accepts_only_governance_account_all r hr sv hsv hpkg mm hmm hmsg env hgov auth W payloadOk s hc)
+
+theorem onBranch_of_err {σ : Type} (f : σ → Res × σ) (s : σ) (h : f s = (.err, s)) : onBranch f s = (.err, s) := by
+  simp [onBranch, h]
+
+theorem onBranch_err_state {σ : Type} (f : σ → Res × σ) (s : σ) (h : (onBranch f s).1 = .err) : (onBranch f s).2 = s := by
+  unfold onBranch at h ⊢
+  cases hf : f s with
+  | mk r s' => cases r <;> simp [hf] at h ⊢
+
+/-- SIGNED TRANSACTIONS: a transaction signed with the key of any account other than the governance module account
+(which has no key) cannot make a privileged message take effect, whatever authority string the message carries, whatever
+the payload, whatever the handlers do after their guards: either `ValidateBasic` refuses it, or the ante handler does
+(the authority does not decode, or decodes to an account that did not sign), or — the authority being the signer's own
+address — the handler's guard does; the state the messages see is untouched. -/
+theorem signed_tx_needs_governance_key {σ : Type} (r : Registration) (hr : r ∈ C16Sem.registrations)
+    (sv : Service) (hsv : sv ∈ C16Sem.services) (hpkg : sv.pkg = r.service)
+    (mm : String × String) (hmm : mm ∈ sv.methods) (hmsg : mm.2 ≠ "")
+    (env : Env) (hgov : lowerAsciiStr env.gov = true) (g : List Nat) (hg : accAddress env.cfg env.gov = some g)
+    (signer : List Nat) (hs : signer ≠ g) (auth : Str) (W : World σ) (payloadOk : Bool) (s : σ) :
+    (txRun prog C16Sem.msgInfos env auth W payloadOk r.impl mm.1 mm.2 signer s).2 = (.err, s) := by
+  unfold txRun
+  split
+  · rfl
+  · cases ha : accAddress env.cfg auth with
+    | none => rfl
+    | some bz =>
+      simp only
+      by_cases hb : bz = signer
+      · subst hb
+        simp only [bne_self_eq_false, Bool.false_eq_true, ↓reduceIte]
+        apply onBranch_of_err
+        apply routed_rejects_other_accounts r hr sv hsv hpkg mm hmm hmsg env hgov auth W payloadOk s
+        rw [ha, hg]
+        intro he
+        exact hs (Option.some.inj he)
+      · have : (bz != signer) = true := by simpa using hb
+        simp [this]
+
+/-- `x/authz`: a `MsgExec` signed by a grantee other than the governance module account cannot make a privileged message
+take effect (no account other than the message's own signer is accepted without a grant, and the governance module
+account grants nothing — monitored on the running app) -/
+theorem authz_exec_needs_governance_grantee {σ : Type} (r : Registration) (hr : r ∈ C16Sem.registrations)
+    (sv : Service) (hsv : sv ∈ C16Sem.services) (hpkg : sv.pkg = r.service)
+    (mm : String × String) (hmm : mm ∈ sv.methods) (hmsg : mm.2 ≠ "")
+    (env : Env) (hgov : lowerAsciiStr env.gov = true) (g : List Nat) (hg : accAddress env.cfg env.gov = some g)
+    (grantee : List Nat) (hs : grantee ≠ g) (auth : Str) (W : World σ) (payloadOk : Bool) (s : σ) :
+    (authzRun prog C16Sem.msgInfos env auth W payloadOk r.impl mm.1 mm.2 grantee s).2 = (.err, s) := by
+  unfold authzRun
+  split
+  · rfl
+  · cases ha : accAddress env.cfg auth with
+    | none => rfl
+    | some bz =>
+      simp only
+      by_cases hb : bz = grantee
+      · subst hb
+        simp only [bne_self_eq_false, Bool.false_eq_true, ↓reduceIte]
+        apply onBranch_of_err
+        apply routed_rejects_other_accounts r hr sv hsv hpkg mm hmm hmsg env hgov auth W payloadOk s
+        rw [ha, hg]
+        intro he
+        exact hs (Option.some.inj he)
+      · have : (bz != grantee) = true := by simpa using hb
+        simp [this]
+
+/-- PROPOSALS: a privileged message executed by a passed proposal carries an authority that decodes to the governance
+module account — by the submission check and, independently, by the handler's guard behind the router -/
+theorem proposal_effect_only_governance_account {σ : Type} (P : Program) (infos : List MsgInfo) (env : Env) (auth : Str)
+    (W : World σ) (payloadOk : Bool) (T m msg : String) (s : σ)
+    (h : (proposalRun P infos env auth W payloadOk T m msg s).2.1 = .ok) :
+    (accAddress env.cfg auth).isSome = true ∧ accAddress env.cfg auth = accAddress env.cfg env.gov := by
+  unfold proposalRun at h
+  split at h
+  · simp at h
+  · split at h
+    · simp at h
+    · rename_i hc
+      simp only [Bool.or_eq_true, Option.isNone_iff_eq_none, bne_iff_ne, ne_eq, not_or, Decidable.not_not] at hc
+      refine ⟨?_, hc.2⟩
+      cases hh : accAddress env.cfg auth with
+      | none => exact absurd hh hc.1
+      | some _ => rfl
+
+/-- every one of the three ways in is all-or-nothing for the state the messages see: a failure at any stage (stateless
+validation, ante handler, grant lookup, submission check, guard, work that fails after writing) leaves it exactly as it was -/
+theorem tx_failure_leaves_state {σ : Type} (P : Program) (infos : List MsgInfo) (env : Env) (auth : Str) (W : World σ)
+    (payloadOk : Bool) (T m msg : String) (who : List Nat) (s : σ) :
+    ((txRun P infos env auth W payloadOk T m msg who s).2.1 = .err → (txRun P infos env auth W payloadOk T m msg who s).2.2 = s) ∧
+    ((authzRun P infos env auth W payloadOk T m msg who s).2.1 = .err → (authzRun P infos env auth W payloadOk T m msg who s).2.2 = s) ∧
+    ((proposalRun P infos env auth W payloadOk T m msg s).2.1 = .err → (proposalRun P infos env auth W payloadOk T m msg s).2.2 = s) := by
+  refine ⟨?_, ?_, ?_⟩
+  · unfold txRun
+    split
+    · intro _; rfl
+    · cases accAddress env.cfg auth with
+      | none => intro _; rfl
+      | some bz =>
+        simp only
+        split
+        · intro _; rfl
+        · exact onBranch_err_state _ s
+  · unfold authzRun
+    split
+    · intro _; rfl
+    · cases accAddress env.cfg auth with
+      | none => intro _; rfl
+      | some bz =>
+        simp only
+        split
+        · intro _; rfl
+        · exact onBranch_err_state _ s
+  · unfold proposalRun
+    split
+    · intro _; rfl
+    · split
+      · intro _; rfl
+      · exact onBranch_err_state _ s
+
+/-- the three ways in do let the governance account through (non-vacuity of the stages): with the keeper's authority
+itself, signed for by the account it decodes to, the message reaches the router -/
+theorem governance_reaches_router {σ : Type} (P : Program) (infos : List MsgInfo) (env : Env) (W : World σ)
+    (T m msg : String) (g : List Nat) (hg : accAddress env.cfg env.gov = some g) (s : σ) :
+    (txRun P infos env env.gov W true T m msg g s).1 = .msgs ∧ (proposalRun P infos env env.gov W true T m msg s).1 = .msgs := by
+  constructor
+  · simp [txRun, basicOk, hg]
+  · simp [proposalRun, basicOk, hg]
+
 /-- the guard is not vacuous: with the keeper's authority itself a guarded body runs its rest -/
 theorem gov_authority_passes_guard {σ : Type} (i : Impl) (hi : i ∈ C16Sem.impls) (g : BExpr) (rest : List Stmt)
     (hb : i.body = .rejectIf g :: rest) (env : Env) (W : World σ) (call : String → String → σ → Res × σ) (s : σ) :
@@ -586,6 +726,9 @@ example : updateStore ['g'] ['g'] [⟨true, [1], [], [7]⟩] [] = (.ok, [([1], [
 
 example : C16Sem.impls.length ≥ 11 := by decide
 example : ∃ gov auth : Str, foldEq gov auth = false := ⟨[103], [48, 120], by decide⟩
+-- the governance module account of a chain with the `cosmos` prefix decodes, and other accounts exist
+example : (accAddress ⟨strOf "cosmos", 1, 255⟩ (strOf "cosmos10d07y265gmmuvt4z0w9aw880jnsr700j6zn9kn")).isSome = true := by decide +kernel
+example : lowerAsciiStr (strOf "cosmos10d07y265gmmuvt4z0w9aw880jnsr700j6zn9kn") = true := by decide
 example : needsRoute prog "x/crosschain/keeper.msgServer" "UpdateParams" = true := by decide
 example : needsRoute prog "x/crosschain/keeper.MsgServer" "UpdateParams" = false := by decide
 example : C16Sem.impls.any (fun i => protectedAt prog 4 i.recv i.method == some .fold) = true := by decide
